@@ -454,6 +454,66 @@ def gen_module(rng, tier):
     return {"kind": "module", "funcs": funcs}
 
 
+def gen_lcb_pair(rng):
+    """two layouts of the same (dim, depth) structure for the common-contiguous-block function itself: equal, or
+    differing in a step, in a tile bound at a position of the contiguity chain (same steps, other tiling), in a bound
+    that is static on one side and `?` on the other, or unrelated."""
+    rank = rng.choice([1, 1, 2, 2, 3])
+    tbs = []
+    for _ in range(rank):
+        depth = rng.choice([1, 2, 2, 3])
+        tbs.append([rng.choice([1, 2, 2, 3, 4, 4, 8]) for _ in range(depth)])
+    keys = [(d, k) for d, tb in enumerate(tbs) for k in range(len(tb))]
+    order = list(keys)
+    if rng.random() < 0.5:
+        order.sort(key=lambda dk: (-dk[0], -dk[1]))      # row-major, innermost tile first
+    else:
+        rng.shuffle(order)
+    st, cur = {}, 1
+    for (d, k) in order:
+        st[(d, k)] = cur
+        cur *= tbs[d][k] * rng.choice([1, 1, 1, 1, 2])
+    a = [[[st[(d, k)], tbs[d][k]] for k in range(len(tb))] for d, tb in enumerate(tbs)]
+    b = json_copy(a)
+    r = rng.random()
+    if r < 0.15:
+        pass
+    elif r < 0.45:      # another tiling with the same steps: swap / change bounds, steps untouched
+        for _ in range(rng.choice([1, 1, 2])):
+            d = rng.randrange(rank)
+            if len(b[d]) > 1 and rng.random() < 0.7:
+                i, j = rng.sample(range(len(b[d])), 2)
+                b[d][i][1], b[d][j][1] = b[d][j][1], b[d][i][1]
+            else:
+                k = rng.randrange(len(b[d]))
+                b[d][k][1] = rng.choice([1, 2, 3, 4, 8])
+    elif r < 0.6:       # a step differs somewhere
+        d = rng.randrange(rank)
+        k = rng.randrange(len(b[d]))
+        b[d][k][0] = rng.choice([1, 2, 4, 8, 16, b[d][k][0] * 2])
+    elif r < 0.8:       # dynamic entries on one or both sides
+        for L in rng.choice([[a], [b], [a, b]]):
+            d = rng.randrange(rank)
+            L[d][0][1] = None
+            if rng.random() < 0.4:
+                L[d][0][0] = None
+    else:               # unrelated steps over the same bounds
+        order2 = list(keys)
+        rng.shuffle(order2)
+        cur = 1
+        for (d, k) in order2:
+            b[d][k][0] = cur
+            cur *= tbs[d][k]
+    if rng.random() < 0.5:
+        a, b = b, a
+    return {"kind": "lcb", "a": {"ts": a, "offset": 0}, "b": {"ts": b, "offset": 0}}
+
+
+def to_real_tsl(t):
+    from snaxc.ir.tsl import Stride, TiledStride, TiledStridedLayout
+    return TiledStridedLayout([TiledStride([Stride(s[0], s[1]) for s in d]) for d in t["ts"]], offset=t["offset"])
+
+
 def gen_special(rng):
     """hand-shaped families: upstream filecheck inputs, equal steps with unit bounds, single-element LCB."""
     fam = rng.randrange(13)
@@ -671,7 +731,7 @@ class C05(Prop):
     ]
     rule = ("random layout pairs {default, strided(+gaps, offset, dynamic strides/offset), TSL depth<=3} x rank<=3(4), "
             "static and dynamic extents, widths i1..i64 incl. sub-byte and odd ones (bytes = ceil(bits/8) from the harness table), plus hand-shaped families (upstream inputs, unit bounds with equal "
-            "steps, single-element LCB, dynamic block layouts, same strided type on both sides with different run-time strides/offsets); non-trivial = more than one DMA burst is issued")
+            "steps, single-element LCB, dynamic block layouts, same strided type on both sides with different run-time strides/offsets; layout pairs for the common-block function itself); non-trivial = more than one DMA burst is issued")
 
     # -- generators
     def cases(self, rng, tier):
@@ -686,6 +746,8 @@ class C05(Prop):
                 yield gen_special(rng)
             elif r < 0.95:
                 yield gen_module(rng, tier)
+            elif r < 0.98:
+                yield gen_lcb_pair(rng)
             else:
                 yield gen_malformed(rng)
         if tier == "thorough":
@@ -745,6 +807,12 @@ class C05(Prop):
     def impl(self, case):
         if case["kind"] == "module":
             return self.impl_module(case)
+        if case["kind"] == "lcb":
+            a, b = to_real_tsl(case["a"]), to_real_tsl(case["b"])
+            out = {"lcb": [stride_json(x) for x in a.largest_common_contiguous_block(b)]}
+            if hasattr(a, "largest_common_contiguous_block_keys"):
+                out["keys"] = [list(k) for k in a.largest_common_contiguous_block_keys(b)]
+            return out
         import snaxrun
         from snaxc.ir.tsl import TiledStridedLayout
         from snaxc.transforms.snax_copy_to_dma import SNAXCopyToDMA
@@ -781,6 +849,8 @@ class C05(Prop):
 
     # -- model
     def requests(self, case):
+        if case["kind"] == "lcb":
+            return [{"fn": "c05.lcb", "args": {"a": case["a"], "b": case["b"]}}]
         if case["kind"] == "module":
             return [r for f in case["funcs"] for c in f["copies"] for r in self.requests(c)]
         idxs = self._sample_idxs(case)
@@ -806,6 +876,13 @@ class C05(Prop):
         return pts
 
     def model(self, case, answers):
+        if case["kind"] == "lcb":
+            a = answers[0]
+            if "err" in a:
+                return {"model_error": a["err"]}
+            if isinstance(a["ok"], dict) and "error" in a["ok"]:
+                return {"raised": a["ok"]["error"]}
+            return {"lcb": a["ok"]}
         if case["kind"] == "module":
             alone = [self.model(c, [a]) for (c, a) in zip([c for f in case["funcs"] for c in f["copies"]], answers)]
             raised = [m for m in alone if "raised" in m]
@@ -844,6 +921,9 @@ class C05(Prop):
     def compare(self, case, impl_out, model_out):
         if model_out is None:
             return None
+        if case["kind"] == "lcb":
+            i = {k: v for k, v in impl_out.items() if k in ("lcb", "raised")}
+            return None if canon_json(i) == canon_json(model_out) else "impl and model outputs differ"
         if case["kind"] == "module":
             alone_m = model_out.get("_alone", [])
             if "raised" in impl_out or "raised" in model_out:
@@ -922,7 +1002,43 @@ class C05(Prop):
             out += self.oracle(c, a)
         return out
 
+    def oracle_lcb(self, case, impl_out):
+        """`lcb_contiguous` stated on the real function, for ANY two layouts of the same structure: every reported
+        position carries the same (step, bound) in both layouts, the first step is 1 and each next step is the previous
+        step x bound -- so the block is one contiguous burst in BOTH layouts and the same addresses in both; where all
+        members are static this is also checked on the addresses themselves."""
+        if "raised" in impl_out or "keys" not in impl_out:
+            return []
+        A, B = case["a"]["ts"], case["b"]["ts"]
+        keys = [tuple(k) for k in impl_out["keys"]]
+        want = [A[d][k] for d, k in keys] or [[1, 1]]
+        if impl_out["lcb"] != want:
+            return [{"what": f"block {impl_out['lcb']} is not the strides at its positions {keys} ({want})", "finding": None}]
+        cur = 1
+        for (d, k) in keys:
+            sa, sb = A[d][k], B[d][k]
+            if sa != sb:
+                return [{"what": f"common contiguous block of {A} and {B}: position {(d, k)} is reported as common but the "
+                                 f"first layout has {sa[1]} -> {sa[0]} there and the second {sb[1]} -> {sb[0]}: the block "
+                                 f"{impl_out['lcb']} is not a burst of the second layout", "finding": None}]
+            if sa[0] != cur:
+                return [{"what": f"common contiguous block of {A} and {B}: position {(d, k)} has step {sa[0]}, the block "
+                                 f"below it ends at {cur}: not contiguous", "finding": None}]
+            cur = sa[0] * sa[1] if sa[0] is not None and sa[1] is not None else None
+        if all(A[d][k][0] is not None and A[d][k][1] is not None and B[d][k][0] is not None and B[d][k][1] is not None
+               for d, k in keys):
+            for L, name in ((A, "first"), (B, "second")):
+                addrs = sorted(sum(i * L[d][k][0] for i, (d, k) in zip(idx, keys))
+                               for idx in itertools.product(*[range(L[d][k][1]) for d, k in keys]))
+                n = prod(A[d][k][1] for d, k in keys)
+                if addrs != list(range(n)):
+                    return [{"what": f"block at {keys} is not the contiguous range 0..{n - 1} in the {name} layout "
+                                     f"({addrs[:10]}…)", "finding": None}]
+        return []
+
     def oracle(self, case, impl_out):
+        if case["kind"] == "lcb":
+            return self.oracle_lcb(case, impl_out)
         if case["kind"] == "module":
             return self.oracle_module(case, impl_out)
         if not self._in_quantifier(case):
@@ -977,12 +1093,18 @@ class C05(Prop):
         return [{"what": "; ".join(problems), "finding": fid}]
 
     def nontrivial(self, case, impl_out):
+        if case.get("kind") == "lcb":
+            return isinstance(impl_out, dict) and len(impl_out.get("keys") or []) >= 1
         if case.get("kind") == "module":
             return isinstance(impl_out, dict) and any(f["calls"] for f in impl_out.get("funcs", []))
         c = impl_out.get("calls") if isinstance(impl_out, dict) else None
         return bool(c) and (len(c) > 1 or (c[0][0] == "2d" and c[0][6] > 1))
 
     def stats_key(self, case, impl_out):
+        if case.get("kind") == "lcb":
+            n = len(impl_out.get("keys") or []) if isinstance(impl_out, dict) else 0
+            same = [[s[1] for s in d] for d in case["a"]["ts"]] == [[s[1] for s in d] for d in case["b"]["ts"]]
+            return f"lcb:{'equal' if same else 'unequal'}-tile-bounds:{min(n, 3)}{'+' if n > 3 else ''}members"
         if case.get("kind") == "module":
             n = sum(len(f["copies"]) for f in case["funcs"])
             tag = "raised" if isinstance(impl_out, dict) and "raised" in impl_out else "ok"
@@ -1003,6 +1125,20 @@ class C05(Prop):
         return base + ":" + c[0][0] + (f"+{n}loops" if n else "")
 
     def shrink(self, case):
+        if case.get("kind") == "lcb":
+            for d in range(len(case["a"]["ts"])):
+                if len(case["a"]["ts"]) > 1:
+                    c = json_copy(case)
+                    del c["a"]["ts"][d]
+                    del c["b"]["ts"][d]
+                    yield c
+                for k in range(len(case["a"]["ts"][d])):
+                    if len(case["a"]["ts"][d]) > 1:
+                        c = json_copy(case)
+                        del c["a"]["ts"][d][k]
+                        del c["b"]["ts"][d][k]
+                        yield c
+            return
         if case.get("kind") == "module":
             for fi, f in enumerate(case["funcs"]):
                 if len(case["funcs"]) > 1:
